@@ -228,6 +228,46 @@ pub fn gen_c19(sh: &mut Shards, o: &Opts) -> serde_json::Value {
         sh.emit(&s);
         n += 2;
     }
+    // scalar_div on operands far below the 1e-16 resolution of the decimal wire format (still inside [-2, 2]): dividend and
+    // divisor are logged as exact mantissa/exponent pairs and TLC forms the quotient in the log domain.  A division done
+    // as a multiplication by the reciprocal is exact to 1-2 ulp everywhere EXCEPT where 1/x overflows.
+    {
+        let mut samples: Vec<(f32, f32)> = Vec::new();
+        let tiny = [1.0e-39f32, 3.0e-41, f32::MIN_POSITIVE, 2.5e-38, 1.0e-30, 7.0e-45, 1.0e-20];
+        for &x in &tiny {
+            for &v in &tiny {
+                for (sv, sx) in [(1.0f32, 1.0f32), (-1.0, 1.0), (1.0, -1.0)] {
+                    samples.push((sv * v, sx * x));
+                }
+            }
+            samples.push((0.0, x));
+            samples.push((-0.0, -x));
+        }
+        for _ in 0..(if o.thorough { 4000 } else { 300 }) {
+            let e = -(rng.below(120) as i32) - 20;
+            let x = (rng.range(1.0, 2.0) as f32) * 2f32.powi(e);
+            let v = (rng.range(-2.0, 2.0) as f32) * 2f32.powi(e - 8 + rng.below(16) as i32);
+            samples.push((v, x));
+        }
+        for chunk in samples.chunks(64) {
+            let mut s = String::from("\"ev\":\"sdiv\",\"t\":\"f32\",\"s\":");
+            list(&mut s, chunk, |o2, (v, x)| {
+                let rv = catch_unwind(AssertUnwindSafe(|| RowVector::from([*v, -*v, 0.5 * *v]).scalar_div(*x).values())).unwrap_or([f32::NAN; 3]);
+                let rm = catch_unwind(AssertUnwindSafe(|| m_f32(&[[f64::from(*v), 0.0, 0.0], [0.0, f64::from(*v), 0.0], [0.0, 0.0, f64::from(*v)]]).scalar_div(*x).values())).unwrap_or([[f32::NAN; 3]; 3]);
+                o2.push('[');
+                me32(o2, *v);
+                o2.push(',');
+                me32(o2, *x);
+                for r in [rv[0], rm[1][1], rm[0][1]] {
+                    o2.push(',');
+                    me32(o2, r);
+                }
+                o2.push(']');
+            });
+            sh.emit(&s);
+            n += 1;
+        }
+    }
     serde_json::json!({"calls": n * 17, "matrices": n, "distinct": n})
 }
 
